@@ -4,7 +4,7 @@
 # tests are run to confirm it survives, then the named check harness is run with symgo against the worktree.
 # Output: one line per mutant. Nothing is written to /repo or to /verif/evidence.
 cd /verif
-P="weight_uf=1,v1cur_fixed=1,tax_uf=1,spidx_uf=1,cflen=1,int_mode=1,cur_lift=1,nkeys=0"
+P="weight_uf=1,v1cur_fixed=1,tax_uf=1,spidx_uf=1,cflen=1,int_mode=1,cur_lift=1"
 W="harness/common/cons_world.go,harness/common/cons_support.go"
 run() { # name file sed-expr pkg harnessfiles runregex extra-params
   local name=$1 file=$2 expr=$3 pkg=$4 hf=$5 rx=$6 extra=$7
